@@ -114,8 +114,9 @@ CLAIMED = {
     "C10": ("All start sequences (<= N) followed by all histories of <= H operations (quick 2/2, thorough 3/3) from add_instruction, +=, clone, "
             "clone_without_body_instructions, rebuild, wrap_in_loop(0/1/2), expand_defgate_sequences (thorough also: expand_calibrations, simplify, resolve_placeholders on "
             "placeholder-free programs): after every step the cached used-qubit set is compared with the union of get_qubits over the listing, and equal listings must "
-            "compare equal. Five listed roles of known findings (cache reset by clone_without_body_instructions and the operations built on it; += keeps the union).",
-            TRUST + "; programs with placeholders inside definitions are outside the history alphabet", "5/C10"),
+            "compare equal. Placeholder mode: all programs of <= 2 (thorough 3) API-built instructions (2-qubit gate, MEASURE, DEFCAL X q: FENCE q') whose qubits are solver-chosen fixed "
+            "indices or one of two placeholders, the same comparison before and after resolve_placeholders. Five listed roles of known findings (cache reset by clone_without_body_instructions and the operations built on it; += keeps the union).",
+            TRUST + "; placeholder programs are not combined with the other history operations", "5/C10"),
 }
 
 TEXT_TIER = ("needs printer + lexer + parser in one path: the printed text has symbolic segments and the lexer (nom string combinators over LocatedSpan<&str>, lexical number "
